@@ -10,6 +10,11 @@ import (
 
 	f3 "github.com/filecoin-project/go-f3"
 	"github.com/filecoin-project/go-f3/gpbft"
+	"context"
+	"github.com/filecoin-project/go-f3/manifest"
+	"github.com/filecoin-project/go-f3/sim/signing"
+	pubsub "github.com/libp2p/go-libp2p-pubsub"
+	mocknetwork "github.com/libp2p/go-libp2p/p2p/net/mock"
 )
 
 func init() { runners["C12"] = runC12 }
@@ -285,5 +290,161 @@ func runC12(o *out, r *rng, thorough bool, replay string) {
 		os.RemoveAll(dir)
 	}
 	os.RemoveAll(base)
+	runC12Runner(o, r, thorough)
 	o.finish("From F3 Require Import Filter FilterRun.")
+}
+
+// ---------- the REAL gpbftRunner: BroadcastMessage / rebroadcastMessage / WAL replay in newRunner ----------
+func runC12Runner(o *out, r *rng, thorough bool) {
+	ctx := context.Background()
+	mn := mocknetwork.New()
+	defer mn.Close()
+	h, err := mn.GenPeer()
+	must(err)
+	ps, err := pubsub.NewGossipSub(ctx, h)
+	must(err)
+	backend := signing.NewFakeBackend()
+	k, _ := backend.GenerateKey()
+	table := gpbft.PowerEntries{{ID: 7, Power: gpbft.NewStoragePower(10), PubKey: k}}
+	m := manifest.LocalDevnetManifest()
+	m.NetworkName = verifNet
+	mec := newModelEC()
+	nh := 30
+	if thorough {
+		nh = 300
+	}
+	base := filepath.Join(o.dir, "wal12r")
+	local := "peerM"
+	for hi := 0; hi < nh; hi++ {
+		dir := filepath.Join(base, fmt.Sprintf("h%d", hi))
+		must(os.MkdirAll(dir, 0o755))
+		cs, _ := newMemStore(ctx, 0, table)
+		wal, err := f3.VerifOpenWAL(dir)
+		must(err)
+		run, err := f3.VerifNewRunner(ctx, cs, mec, ps, backend, m, wal, local)
+		must(err)
+		var hops, desc, counts []string
+		viol := func(clause, sig, detail string) {
+			o.violate(clause, sig, map[string]any{"history": append([]string{}, desc...)}, detail)
+		}
+		restart := func() {
+			run.Cancel()
+			_ = wal.Close()
+			wal, err = f3.VerifOpenWAL(dir)
+			must(err)
+			run, err = f3.VerifNewRunner(ctx, cs, mec, ps, backend, m, wal, local)
+			must(err)
+		}
+		inWal := func(x eqMsg) bool {
+			es, err := wal.All()
+			must(err)
+			for _, e := range es {
+				if e.Message.Vote.Instance == x.inst && uint64(e.Message.Sender) == x.sender && e.Message.Vote.Round == x.round && e.Message.Vote.Phase == x.phase && e.Message.Signature[0] == x.sig {
+					return true
+				}
+			}
+			return false
+		}
+		type wireRec struct {
+			m   eqMsg
+			sig byte
+		}
+		slot := map[string]byte{}
+		var maxInst uint64
+		publish := func(x eqMsg) {
+			// monitors on what reaches the publication point
+			if !inWal(x) {
+				viol("every message is recorded durably before it is published", "wire-not-logged", x.term())
+			}
+			kk := fmt.Sprint(x.inst, x.sender, x.round, x.phase)
+			if s, ok := slot[kk]; ok && s != x.sig {
+				viol("never two differently signed messages for one (instance, sender, round, step)", "wire-equivocation", kk)
+			}
+			slot[kk] = x.sig
+			if x.inst < maxInst {
+				viol("never a message for an instance older than one already broadcast for", "wire-older-instance", fmt.Sprint(x.inst, maxInst))
+			}
+			if x.inst > maxInst {
+				maxInst = x.inst
+			}
+		}
+		conflict := false
+		said := map[string]byte{}
+		curInst := uint64(1)
+		senders := []uint64{7}
+		if r.chance(60) {
+			senders = []uint64{7, 8, 11} // a node signing for several identities
+		}
+		steps := 10 + r.intn(30)
+		for st := 0; st < steps; st++ {
+			if r.chance(12) {
+				curInst += uint64(1 + r.intn(2))
+			}
+			inst := curInst
+			if r.chance(12) && inst > 1 {
+				inst--
+			}
+			x := eqMsg{inst, senders[r.intn(len(senders))], uint64(r.intn(2)), gpbft.Phase(1 + r.intn(4)), byte(1 + r.intn(2))}
+			kk := fmt.Sprint(x.inst, x.sender, x.round, x.phase)
+			if s, ok := said[kk]; ok && s != x.sig {
+				conflict = true
+			}
+			switch c := r.intn(100); {
+			case c < 60:
+				pub, err := run.Broadcast(ctx, x.gmsg())
+				if err != nil {
+					viol("BroadcastMessage succeeds", "runner-broadcast-error", err.Error())
+				}
+				said[kk] = x.sig
+				if pub {
+					publish(x)
+				}
+				hops = append(hops, "HBroadcast "+x.term())
+				counts = append(counts, fmt.Sprint(b2i(pub)))
+				desc = append(desc, fmt.Sprintf("broadcast %s -> published=%v", x.term(), pub))
+			case c < 80:
+				// the participant asks for a rebroadcast of a slot: every self message of that slot, through the real path
+				in := gpbft.Instant{ID: x.inst, Round: x.round, Phase: x.phase}
+				for _, gm := range run.SelfMessages(in) {
+					y := eqMsg{gm.Vote.Instance, uint64(gm.Sender), gm.Vote.Round, gm.Vote.Phase, gm.Signature[0]}
+					pub, err := run.Rebroadcast(gm)
+					if err != nil {
+						viol("rebroadcast succeeds", "runner-rebroadcast-error", err.Error())
+					}
+					if pub {
+						publish(y)
+					}
+					hops = append(hops, "HRebroadcast "+y.term())
+					counts = append(counts, fmt.Sprint(b2i(pub)))
+					desc = append(desc, fmt.Sprintf("rebroadcast %s -> published=%v", y.term(), pub))
+				}
+			default:
+				restart()
+				hops = append(hops, "HRestart")
+				counts = append(counts, "0")
+				desc = append(desc, "restart")
+			}
+		}
+		var lt []string
+		es, _ := wal.All()
+		for _, e := range es {
+			lt = append(lt, eqMsg{e.Message.Vote.Instance, uint64(e.Message.Sender), e.Message.Vote.Round, e.Message.Vote.Phase, e.Message.Signature[0]}.term())
+		}
+		run.Cancel()
+		_ = wal.Close()
+		o.coqCase(fmt.Sprintf("runner history %d: %s", hi, strings.Join(desc, " | ")), fmt.Sprintf("hostrun_ok 2 %s %s %s", cList(hops), "["+strings.Join(counts, "; ")+"]", cList(lt)))
+		o.count("runner-history", strings.Join(hops, ";"), conflict || len(senders) > 1)
+		if hi < 1 {
+			o.sample(map[string]any{"kind": "runner", "history": desc})
+		}
+		os.RemoveAll(dir)
+	}
+	os.RemoveAll(base)
+}
+
+func b2i(b bool) int {
+	if b {
+		return 1
+	}
+	return 0
 }
